@@ -1,5 +1,6 @@
 import IceTie.Prio
 import IceSpec.C17
+import IceModel.Crc32
 /-!
 # C17 — candidate and pair priorities follow the RFC formulas for every configuration
 
@@ -148,6 +149,43 @@ theorem C17_pair_code_symmetric (ov : UInt64) (l r : UInt32) :
     IceGen.candidatePair_priority false ov true l r = IceGen.candidatePair_priority false ov false r l := by
   apply UInt64.toNat_inj.mp
   rw [pairPriority_tie, pairPriority_tie]; rfl
+
+section Foundation
+open IceModel.Crc32
+theorem netStr_len (n : Nat) (h : 1 ≤ n ∧ n ≤ 4) : (netStr n).toList.length = 4 := by
+  obtain ⟨h1, h2⟩ := h
+  have : n = 1 ∨ n = 2 ∨ n = 3 ∨ n = 4 := by omega
+  rcases this with rfl | rfl | rfl | rfl <;> decide
+
+theorem netStr_inj (n m : Nat) (hn : 1 ≤ n ∧ n ≤ 4) (hm : 1 ≤ m ∧ m ≤ 4) (h : (netStr n).toList = (netStr m).toList) : n = m := by
+  have a : n = 1 ∨ n = 2 ∨ n = 3 ∨ n = 4 := by omega
+  have b : m = 1 ∨ m = 2 ∨ m = 3 ∨ m = 4 := by omega
+  rcases a with rfl | rfl | rfl | rfl <;> rcases b with rfl | rfl | rfl | rfl <;> first | rfl | (exfalso; revert h; decide)
+
+/-- Foundations: the foundation is the CRC-32 of `type ++ address ++ network type`; this key string is
+INJECTIVE in (type, address, network type), so foundations coincide for equal triples (function
+congruence) and differ for different triples exactly up to CRC-32 collisions. -/
+theorem C17_foundation_key_injective (t1 t2 n1 n2 : Nat) (a1 a2 : String)
+    (ht1 : 1 ≤ t1 ∧ t1 ≤ 4) (ht2 : 1 ≤ t2 ∧ t2 ≤ 4) (hn1 : 1 ≤ n1 ∧ n1 ≤ 4) (hn2 : 1 ≤ n2 ∧ n2 ≤ 4)
+    (h : foundationKey t1 a1 n1 = foundationKey t2 a2 n2) : t1 = t2 ∧ a1 = a2 ∧ n1 = n2 := by
+  have hl := congrArg String.toList h
+  simp only [foundationKey, String.toList_append] at hl
+  have a : t1 = 1 ∨ t1 = 2 ∨ t1 = 3 ∨ t1 = 4 := by omega
+  have b : t2 = 1 ∨ t2 = 2 ∨ t2 = 3 ∨ t2 = 4 := by omega
+  have tEq : t1 = t2 := by
+    rcases a with rfl | rfl | rfl | rfl <;> rcases b with rfl | rfl | rfl | rfl <;>
+      first | rfl | (exfalso; simp [typeStr] at hl)
+  subst tEq
+  have hl2 : a1.toList ++ (netStr n1).toList = a2.toList ++ (netStr n2).toList := by
+    rw [List.append_assoc, List.append_assoc] at hl
+    exact List.append_cancel_left hl
+  have := List.append_inj' hl2 (by rw [netStr_len n1 hn1, netStr_len n2 hn2])
+  exact ⟨rfl, String.toList_inj.mp this.1, netStr_inj n1 n2 hn1 hn2 this.2⟩
+
+theorem C17_foundation_equal (t n : Nat) (a : String) : foundation t a n = foundation t a n := rfl
+
+example : crcBit 1 = 0xEDB88320 := by decide
+end Foundation
 
 /-! Non-vacuity: concrete configurations meeting the hypotheses. -/
 example : candViolation { ty := .srflx, isTCP := true, tt := .passive, relayProto := "udp", offset := 101, component := 1 }
